@@ -505,6 +505,39 @@ func (fc *fileCtx) visit(n ast.Node, parent ast.Node, d int) {
 	if fc.skipped(n) {
 		return
 	}
+	// statement-level pre-emption points (taken only when a scenario asks for
+	// them and several tasks are alive): unsynchronised code of two goroutines
+	// interleaves between any two statements
+	var stmts []ast.Stmt
+	switch b := n.(type) {
+	case *ast.BlockStmt:
+		switch pp := parent.(type) {
+		case *ast.SwitchStmt:
+			if pp.Body == b {
+				break
+			}
+			stmts = b.List
+		case *ast.TypeSwitchStmt:
+			if pp.Body == b {
+				break
+			}
+			stmts = b.List
+		case *ast.SelectStmt:
+		default:
+			stmts = b.List
+		}
+	case *ast.CaseClause:
+		stmts = b.Body
+	case *ast.CommClause:
+		stmts = b.Body
+	}
+	for _, st := range stmts {
+		if _, empty := st.(*ast.EmptyStmt); empty {
+			continue
+		}
+		fc.insertBefore(st.Pos(), "simrt.P(); ", d)
+		fc.count("preempt_point")
+	}
 	switch n := n.(type) {
 	case *ast.FuncDecl:
 		if n.Body != nil {
